@@ -980,7 +980,7 @@ func (t *Tokenizer) readQuotedIdentifier() (models.Token, error) {
 
 		if r == '\n' {
 			return models.Token{}, errors.UnterminatedStringError(
-				models.Location{Line: startPos.Line, Column: startPos.Column},
+				t.toSQLPosition(startPos),
 				string(t.input),
 			)
 		}
@@ -1117,7 +1117,7 @@ func (t *Tokenizer) readQuotedString(quote rune) (models.Token, error) {
 			if err := t.handleEscapeSequence(&buf); err != nil {
 				return models.Token{}, errors.InvalidSyntaxError(
 					fmt.Sprintf("invalid escape sequence: %v", err),
-					models.Location{Line: t.pos.Line, Column: t.pos.Column},
+					t.getCurrentPosition(),
 					string(t.input),
 				)
 			}
@@ -1648,7 +1648,7 @@ func (t *Tokenizer) readPunctuation() (models.Token, error) {
 				}
 				// Unterminated dollar-quoted string
 				return models.Token{}, errors.UnterminatedStringError(
-					models.Location{Line: t.pos.Line, Column: t.pos.Column},
+					t.getCurrentPosition(),
 					string(t.input),
 				)
 			}
